@@ -50,6 +50,48 @@ def run_source(args):
   return rec
 
 
+def population_worker(args):
+  """All NIST and extended tests of the suite's own table on 2^20 bits of a good generator; returns {test label: [p-values]}."""
+  name, seed, n = args
+  try:
+    shim.install()
+    from paranoid_crypto.lib.randomness_tests import random_test_suite as rts, rng, nist_suite
+    bits = rng.GetRng(name).RandomBits(n, seed=seed)
+    out = {}
+    for fn, par in rts.NIST_TESTS + rts.EXTENDED_NIST_TESTS:
+      label = fn.__name__ + ('' if not par else '-' + '-'.join(map(str, par)))
+      try:
+        res = fn(bits, n, *par)
+      except nist_suite.InsufficientDataError:
+        continue
+      ps = [float(res)] if isinstance(res, (int, float)) else [float(x) for _, x in res]
+      # p = 1 exactly is how LargeBinaryMatrixRank reports a full-rank matrix; templates: the first 40 of 148 keep the counts small
+      out[label] = ps[:40]
+    return (name, seed), out, None
+  except Exception:  # pylint: disable=broad-except
+    return (name, seed), None, traceback.format_exc()
+
+
+def population_records(ctx):
+  """The fraction of p-values at or below alpha over many seeds of the good generators, per test: decided by GenTrace (5 sigma)."""
+  from pv import proc
+  seeds = range(1, 9) if ctx.quick else range(1, 61)
+  jobs = [(g, s_, 2 ** 20) for g in GOOD for s_ in seeds]
+  pool = {}
+  for key, out, err in proc.imap_unordered(population_worker, jobs, procs=14):
+    if err:
+      raise tlc.MachineryError('population worker crashed:\n%s' % err)
+    for label, ps in out.items():
+      pool.setdefault(label, []).extend(ps)
+  recs = []
+  for label, ps in sorted(pool.items()):
+    ps = ps[:1900]
+    recs.append({'sid': 'pop-%s' % label, 'ev': 'pop', 'args': {'test': label, 'K': len(ps), 'generators': GOOD, 'seeds': len(list(seeds))},
+                 'obs': {'le_1_20': sum(1 for x in ps if x <= 0.05), 'le_1_100': sum(1 for x in ps if x <= 0.01),
+                         'le_1_1000': sum(1 for x in ps if x <= 0.001), 'nan': sum(1 for x in ps if x != x)}, 'raised': 'none'})
+  return recs
+
+
 def plan(ctx):
   jobs = []
   if ctx.quick:
@@ -97,12 +139,21 @@ def finish(ctx, handle):
   ctx.replayed += len(recs)
   ctx.sample({'sid': recs[0]['sid'], 'ret': recs[0]['obs'].get('ret'),
               'runs': [{k: v for k, v in r.items() if k in ('test', 'states', 'pmin')} for r in recs[0]['obs'].get('runs', [])][:6]})
+  if not ctx.only_sid or ctx.only_sid.startswith('pop-'):
+    pop = population_records(ctx)
+    if ctx.only_sid:
+      pop = [x for x in pop if x['sid'] == ctx.only_sid]
+    recs = recs + pop
+    ctx.replayed += len(pop)
+    ctx.notes['population_pvalues'] = sum(x['args']['K'] for x in pop)
   c, fails, tr = tlc.validate_trace('GenTrace', 'GenTrace.cfg', recs, 'C13gen')
   ctx.validated += c
   ctx.note_mc(tr, 'GenTrace: single-run rule, return rule and labelled expectations on real generator output')
   by = {x['sid']: x for x in recs}
   def det(rec, f):
     a = rec['args']
+    if rec['ev'] == 'pop':
+      return {'population': True, 'test': a['test'], 'K': a['K'], 'counts': rec['obs']}
     failed = [r['test'] for r in rec['obs'].get('runs', []) if 'FAILED' in r['states']]
     return {'source': a['source'], 'cls': a['cls'], 'family': a['family'], 'n': a['n'], 'seed': a['seed'], 'raised': rec['raised'],
             'ret': rec['obs'].get('ret'), 'failed_tests': failed,
@@ -112,4 +163,5 @@ def finish(ctx, handle):
   ctx.notes['generator_runs'] = len(recs)
   ctx.assume('weak-generator clauses use catalogue seeds; "the lattice bias search fails it" is read as some block size among 256/384/512/1024; '
              'the rank clause for the xorshift family applies from the matrix size the documentation tabulates (2^16 / 2^18 / 2^22 bits); '
-             'the population statement (fraction of p <= alpha) is not decided here')
+             'the population statement is decided per test on the pooled p-values of SHAKE128 / PCG64 / Philox over 8 (thorough 60) seeds at 2^20 bits: '
+             'counts at alpha = 1/20, 1/100, 1/1000 within five binomial standard deviations (GenTrace.Within)')
